@@ -85,7 +85,7 @@ func runC19(r *R) {
 	if len(res.Samples) != out.Fired {
 		r.Fail("sample-count", "%d requests were to be fired (%d entries x %d passes), %d samples were reported; %s", out.Fired, sp.Entries, sp.Passes, len(res.Samples), ctx)
 	}
-	if sp.ConnFaults == "" && !sp.KeepAlive {
+	if sp.ConnFaults == "" && !sp.KeepAlive && !sp.TLSHang {
 		// one connection per request: every attempt reaches the peer
 		for i, arr := range out.PerEnt {
 			if len(arr) < sp.Passes {
